@@ -417,7 +417,7 @@ func c02NewDnsController(plane *ControlPlane) *DnsController {
 
 // every address in the real domain_routing_map must carry the OR of the CURRENT generation's
 // MatchDomainBitmap of the names answered with it (a bitmap of an earlier generation points at other
-// match sets). Addresses that should be there but are not are counted, not alarmed on (C10's subject).
+// match sets), and every address of a cached name with a non-zero bitmap must be there.
 func (k *c02Kern) checkDomainTable(when string) {
 	want := map[[16]byte][32]uint32{}
 	for name, addrs := range k.hosts {
@@ -438,8 +438,10 @@ func (k *c02Kern) checkDomainTable(when string) {
 		got, ok := k.shDom[key]
 		if !ok {
 			if w != [32]uint32{} {
+				// installed-state precondition of H2 (fix 8e387ec: the tracker is reset with the cleared table)
 				k.stats.Inc("dom.cached_name_missing_in_kernel_map")
-				k.stats.Sample(fmt.Sprintf("domain_routing_map has no entry for %s %s", netip.AddrFrom16(key).Unmap(), when))
+				k.goViol = append(k.goViol, fmt.Sprintf("domain_routing_map has no entry for %s %s although a cached name with a non-zero bitmap resolves to it: "+
+					"the kernel routes that address without the domain while userspace matches the domain rules", netip.AddrFrom16(key).Unmap(), when))
 			}
 			continue
 		}
